@@ -427,7 +427,7 @@ func genC07(t *rapid.T) *C07Case {
 		}
 		lines = append(lines, l)
 	}
-	limits := rapid.IntRange(0, 5).Draw(t, "limits") == 0
+	limits := rapid.IntRange(0, 3).Draw(t, "limits") == 0
 	if limits {
 		// body-limit dynamics: small limits, both limit actions, and rules that move the limits (or switch body
 		// access / the body processor) in any phase, i.e. possibly below what has been buffered by then
@@ -440,12 +440,17 @@ func genC07(t *rapid.T) *C07Case {
 			"SecResponseBodyLimitAction " + rapid.SampledFrom(la).Draw(t, "rsa")}, lines...)
 		for i, k := 0, rapid.IntRange(1, 3).Draw(t, "nlimctl"); i < k; i++ {
 			ctl := rapid.SampledFrom([]string{"requestBodyLimit=%d", "responseBodyLimit=%d", "requestBodyLimit=%d", "requestBodyAccess=Off", "responseBodyAccess=Off",
-				"requestBodyProcessor=JSON", "requestBodyProcessor=XML", "responseBodyProcessor=JSON", "forceRequestBodyVariable=On", "requestBodyAccess=On"}).Draw(t, "limctl")
+				"requestBodyProcessor=JSON", "requestBodyProcessor=XML", "responseBodyProcessor=JSON", "forceRequestBodyVariable=On", "requestBodyAccess=On",
+				// per-transaction rule and logging state, changed at any point of the (possibly anomalous) call sequence
+				"ruleRemoveTargetById=9400;ARGS:x", "ruleRemoveTargetById=9400;ARGS:/^a/", "ruleRemoveTargetByTag=dyn;ARGS_GET", "ruleRemoveTargetByMsg=dynmsg;REQUEST_HEADERS:x-a",
+				"ruleRemoveById=9400", "ruleRemoveById=9000-9600", "ruleRemoveByTag=dyn", "ruleRemoveByMsg=dynmsg", "ruleEngine=DetectionOnly", "ruleEngine=Off", "ruleEngine=On",
+				"auditEngine=On", "auditLogParts=+E", "auditLogParts=-B", "debugLogLevel=9"}).Draw(t, "limctl")
 			if strings.Contains(ctl, "%d") {
 				ctl = fmt.Sprintf(ctl, rapid.IntRange(1, 60).Draw(t, "limval"))
 			}
-			lines = append(lines, fmt.Sprintf("SecAction \"id:%d,phase:%d,pass,nolog,ctl:%s\"", 9500+i, rapid.IntRange(1, 4).Draw(t, "limphase"), ctl))
+			lines = append(lines, fmt.Sprintf("SecAction \"id:%d,phase:%d,pass,nolog,ctl:%s\"", 9500+i, rapid.IntRange(1, 5).Draw(t, "limphase"), ctl))
 		}
+		lines = append(lines, "SecRule ARGS|REQUEST_HEADERS \"@rx .\" \"id:9400,phase:2,pass,nolog,tag:'dyn',msg:'dynmsg'\"")
 		c.Limits = true
 	}
 	c.Lines = lines
@@ -516,7 +521,15 @@ func genC07(t *rapid.T) *C07Case {
 		for i := 0; i < nm && len(script) > 1; i++ {
 			last := len(script) - 1
 			j := rapid.IntRange(0, last-1).Draw(t, "j")
-			switch rapid.IntRange(0, 5).Draw(t, "smut") {
+			kinds := 5
+			if c.Limits {
+				kinds = 7 // the handle used after Close: twice as likely where rules change per-transaction state
+			}
+			smut := rapid.IntRange(0, kinds).Draw(t, "smut")
+			if smut > 5 {
+				smut = 5
+			}
+			switch smut {
 			case 0:
 				script = append(script[:j+1], append([]Call{script[j]}, script[j+1:]...)...)
 			case 1:
